@@ -45,6 +45,20 @@ impl<'p, Prog: GetInstr> Prover<'p, Prog> {
         self.configs.len()
     }
 
+    /// Verification hook: the stored rules with the minimal signature
+    /// each was proved for, in map order.
+    #[cfg(bb_verif)]
+    pub fn verif_rules(&self) -> Vec<(Slot, MinSig, Rule)> {
+        self.rules
+            .iter()
+            .flat_map(|(slot, rules)| {
+                rules.iter().map(|(sig, rule)| {
+                    (*slot, sig.clone(), rule.clone())
+                })
+            })
+            .collect()
+    }
+
     fn set_rule(&mut self, rule: Rule, state: State, sig: MinSig) {
         self.rules
             .entry((state, sig.0.scan))
